@@ -8,7 +8,7 @@
    map-iteration oracle and clock value) of the model of the REPAIRED code
    (fixes 7baf630 c9f204c d6f86b5 in /repo; see FIXLOG.md). *)
 From PV Require Import Base.Prelude Base.Text Model.DHCP Model.DHCPShow Spec.DHCP Spec.DHCPCheck
-  Proofs.DHCP Proofs.DHCPInv Proofs.DHCPReply Proofs.DHCPTie Proofs.DHCPRefuted.
+  Proofs.DHCP Proofs.DHCPInv Proofs.DHCPReply Proofs.DHCPTie Proofs.DHCPRestart Proofs.DHCPRefuted.
 Open Scope list_scope.
 Open Scope N_scope.
 
@@ -62,6 +62,38 @@ Print Assumptions C11_reserved.
 Theorem C11_spec_column_never_fails : forall c h t, sub_ok c -> In t (trace c (init c) h) -> c11_fails c t = [].
 Proof. exact c11_fails_nil. Qed.
 Print Assumptions C11_spec_column_never_fails.
+
+(* Restart (lease expiry survives).  The lease file always holds every acknowledged lease exactly as it is
+   in memory: every ACK — first acknowledgement or renewal — rewrites it, and a step that does not
+   rewrite it changes no acknowledged lease (histories without the test hook OSetExp). *)
+Theorem C11_lease_file_invariant : forall c h s saved,
+  forallb (fun p => negb (is_hook (snd p))) h = true ->
+  run_saving c (init c) [] h = (s, saved) -> in_file s saved.
+Proof. exact lease_file_invariant. Qed.
+Print Assumptions C11_lease_file_invariant.
+
+(* Hence the expiry restart_state restores is the expiry of the lease's last ACK: every lease acknowledged
+   in the final state of run 1 (and passing loadByteArray's filter: address in net1, non-empty client id) is
+   acknowledged in the initial state of run 2 for the same address with the same expiry — a lease
+   unexpired when run 1 ended is unexpired when run 2 starts, so MinuteTicker cannot free it, and
+   C11's clauses keep its address away from other clients, before that expiry. *)
+Theorem C11_restart_expiry : forall cA cB h sA saved l x,
+  forallb (fun p => negb (is_hook (snd p))) h = true ->
+  run_saving cA (init cA) [] h = (sA, saved) ->
+  sub_changed (wanted cB) (c_sub cA) = false ->
+  In l (tbl sA) -> l_state l = SAllocated -> l_ip l = Some x ->
+  n_contains (loaded_cfg (c_sub cA) cB) false x = true -> l_cid l <> 1 ->
+  exists l', In l' (tbl (restart_state (c_sub cA) cB saved)) /\ l_cid l' = l_cid l /\
+             l_state l' = SAllocated /\ l_ip l' = Some x /\ l_mac l' = l_mac l /\ l_exp l' = l_exp l.
+Proof. exact restart_expiry. Qed.
+Print Assumptions C11_restart_expiry.
+
+Example C11_restart_expiry_example :
+  let '(sA, saved) := run_saving wcfgR (init wcfgR) [] (with_ch0 wren) in
+  map (fun l => (l_state l, l_ip l, l_exp l)) (tbl (restart_state (c_sub wcfgR) wcfgR saved))
+  = [(SAllocated, Some 3232235522, 15400%Z)].
+Proof. exact restart_expiry_example. Qed.
+Print Assumptions C11_restart_expiry_example.
 
 (* Non-vacuity: a history whose steps answer OFFER, ACK (home pool), OFFER, ACK
    (netfilter pool, captured client) and a renewal ACK. *)
